@@ -276,6 +276,13 @@ func (app *Application) submitEvidence(
 	if b {
 		return roothash.ErrDuplicateEvidence
 	}
+
+	// Start a new transaction and rollback in case we fail. Slashing can still fail (e.g. evidence
+	// for a non-existing node) and in that case the evidence hash must not be left behind.
+	ctx = ctx.NewTransaction()
+	defer ctx.Close()
+	state = roothashState.NewMutableState(ctx.State())
+
 	if err = state.SetEvidenceHash(ctx, rtState.Runtime.ID, round, evHash); err != nil {
 		return err
 	}
@@ -288,6 +295,8 @@ func (app *Application) submitEvidence(
 	); err != nil {
 		return fmt.Errorf("error slashing runtime node: %w", err)
 	}
+
+	ctx.Commit()
 
 	return nil
 }
